@@ -89,6 +89,8 @@ func zzValue(d int, path string, s *zzSpec, n int, arrayLevel int) zzFacets {
 	switch s.kind {
 	case "any":
 		return f
+	case "null":
+		f.typ = false // zzValue is the verdict for a NON-null value
 	case "boolean":
 		f.typ = zzKindIs(d, path, zzvrt.KBool)
 	case "string":
@@ -233,6 +235,8 @@ func zzPosition(d int, path string, s *zzSpec, n int, arrayLevel int, _ bool) zz
 	switch {
 	case s.kind == "any":
 		return zzAllTrue()
+	case s.kind == "null":
+		return v
 	case s.kind == "enum-mixed" || s.kind == "enum-string-null":
 		// null is a listed value of these enums
 		return v
